@@ -349,3 +349,31 @@ def deep_calls(ctx, root, rx, depth=2, skip=None):
             visit(cb, env, d, seen | {cpath})
     visit(root, None, depth, {root.path})
     return out
+
+
+def session_fields(ctx):
+    """where a Session keeps its lines and its line cursor, by type: the field (of Session itself or of a crate-local struct it
+    holds by value) of type Vec<String> and the one of type Cell<usize>.
+    -> {'lines': qualified field id, 'cursor': qualified field id, 'container': qualified id of the Session field that holds a
+    struct with both (or None), 'lines_name', 'cursor_name'}"""
+    adt = ctx.facts.adts.get('session::Session')
+    if not adt:
+        raise AnchorLost('struct session::Session not found')
+    found = {'lines': [], 'cursor': []}
+
+    def scan(owner, fields, via):
+        for f in fields:
+            ty = str(f.get('ty', ''))
+            fid = '%s.%s' % (owner, f['name'])
+            if re.fullmatch(r'alloc::vec::Vec<alloc::string::String>', ty):
+                found['lines'].append((fid, via))
+            elif re.fullmatch(r'core::cell::Cell<usize>', ty):
+                found['cursor'].append((fid, via))
+            elif via is None and ty in ctx.facts.adts and ctx.facts.adts[ty].get('kind') == 'struct' and not ty.startswith(('alloc::', 'core::')):
+                scan(ty, ctx.facts.adts[ty]['variants'][0]['fields'], fid)
+    scan('session::Session', adt['variants'][0]['fields'], None)
+    if len(found['lines']) != 1 or len(found['cursor']) != 1:
+        raise AnchorLost('Session: expected one Vec<String> (the lines) and one Cell<usize> (the cursor), found %d and %d' % (len(found['lines']), len(found['cursor'])))
+    (lid, lvia), (cid, cvia) = found['lines'][0], found['cursor'][0]
+    return {'lines': lid, 'cursor': cid, 'container': lvia if lvia is not None and lvia == cvia else None,
+            'lines_name': lid.rsplit('.', 1)[1], 'cursor_name': cid.rsplit('.', 1)[1]}
